@@ -987,7 +987,9 @@ def main():
                       ("alt:families", "prog", pick, prog_req, 8000000, WATCHDOG_MS, 12, 64, lambda: Budget(max_bad=16)),
                       ("alt:line", "c01", line_groups, c01_req, 8000000, WATCHDOG_MS, 12, 64, lambda: Budget(max_bad=16))]
     else:
-        alt_passes = [(n.replace("strict", "alt-strict") if n.startswith("strict") else "alt:" + n, b, g, m, v, w, wk, c, mb) for n, b, g, m, v, w, wk, c, mb in passes + strict]
+        # everything again; of the two big random groups a quarter (they run in full under the default feature set)
+        thin = lambda g: [(name, es[::4] if name in ("pipelines", "mutated") else es) for name, es in g]
+        alt_passes = [(n.replace("strict", "alt-strict") if n.startswith("strict") else "alt:" + n, b, thin(g), m, v, w, wk, c, mb) for n, b, g, m, v, w, wk, c, mb in passes + strict]
     if chk.replay and replay_alt:
         run_pass(passes[0], alt=True)
         run_pass(passes[1], alt=True)
